@@ -78,10 +78,9 @@ theorem commit_valid_core (info : NodeInfo) (origin : CpuMap) (B maxShare : Int)
     (ps : List CpuPlan) (n : Nat) (ws : List Workload) (hB : 1 ≤ B) (hck : info.cap.cpuMap.keys.Nodup) (huk : info.use.cpuMap.keys.Nodup)
     (hord : order.Nodup) (hval : info.validate = true) (hnk : (info.cap.numa.map (·.1)).Nodup)
     (hV3 : ({ info with use := commitUsage info.use ws } : NodeInfo).validateNuma = true) (hmem0 : 0 ≤ req.mem)
-    (hmv : memValid info = true)
     (h : getCPUPlans info origin B maxShare req order = .ok ps)
     (hws1 : ws.map (·.cpuMap) = (ps.map (·.cpuMap)).take n) (hws2 : ∀ w ∈ ws, w.memReq = req.mem) :
-    ∃ info', commit info ws = .ok info' ∧ memValid info' = true := by
+    ∃ info', commit info ws = .ok info' ∧ (memValid info = true → memValid info' = true) := by
   obtain ⟨ps', h', hu, hok⟩ := getCPUPlans_spec info origin B hB maxShare req order hord hnk hck
   rw [h] at h'; cases h'
   have hfm := getCPUPlans_fit_memory info origin B maxShare req order ps h
@@ -166,6 +165,7 @@ theorem commit_valid_core (info : NodeInfo) (origin : CpuMap) (B maxShare : Int)
   rw [if_pos hvalid']
   refine ⟨_, rfl, ?_⟩
   -- memory
+  intro hmv
   unfold memValid at hmv ⊢
   simp only [decide_eq_true_eq] at hmv ⊢
   rw [c4]
@@ -198,11 +198,47 @@ theorem commit_valid_core (info : NodeInfo) (origin : CpuMap) (B maxShare : Int)
 theorem commit_valid_nonnuma (info : NodeInfo) (origin : CpuMap) (B maxShare : Int) (req : Req) (order : List String)
     (ps : List CpuPlan) (n : Nat) (ws : List Workload) (hB : 1 ≤ B) (hck : info.cap.cpuMap.keys.Nodup) (huk : info.use.cpuMap.keys.Nodup)
     (hord : order.Nodup) (hval : info.validate = true) (hnuma : info.cap.numa = []) (hmem0 : 0 ≤ req.mem)
-    (hmv : memValid info = true)
     (h : getCPUPlans info origin B maxShare req order = .ok ps)
     (hws1 : ws.map (·.cpuMap) = (ps.map (·.cpuMap)).take n) (hws2 : ∀ w ∈ ws, w.memReq = req.mem) :
-    ∃ info', commit info ws = .ok info' ∧ memValid info' = true :=
+    ∃ info', commit info ws = .ok info' ∧ (memValid info = true → memValid info' = true) :=
   commit_valid_core info origin B maxShare req order ps n ws hB hck huk hord hval (by rw [hnuma]; simp)
-    (by unfold NodeInfo.validateNuma; simp [hnuma]) hmem0 hmv h hws1 hws2
+    (by unfold NodeInfo.validateNuma; simp [hnuma]) hmem0 h hws1 hws2
+
+
+/-! ### the memory-only path (`doAllocByMemory`) -/
+
+theorem post_memReq_nonneg (w : RawReq) (h1 : 0 ≤ w.memReq) : 0 ≤ w.post.memReq := by
+  unfold RawReq.post
+  dsimp only
+  repeat' split
+  all_goals (first | omega | (simp_all; try omega))
+
+theorem validate_memReq_nonneg (raw w : RawReq) (h : raw.validate = .ok w) : 0 ≤ w.memReq := by
+  unfold RawReq.validate at h
+  split at h
+  · cases h
+  · rename_i hm
+    split at h
+    · cases h
+    · split at h
+      · cases h
+      · cases h
+        exact post_memReq_nonneg _ (by omega)
+
+/-- `doAllocByMemory`'s workloads change no CPU map and no NUMA memory -/
+theorem commitUsage_unbound (use : NodeRes) (n : Nat) (w0 : Workload) (h1 : w0.cpuMap = []) (h2 : w0.numaMem = []) :
+    (commitUsage use (List.replicate n w0)).cpuMap = use.cpuMap ∧
+    (commitUsage use (List.replicate n w0)).numaMem = use.numaMem ∧
+    (commitUsage use (List.replicate n w0)).mem = use.mem + (n : Int) * w0.memReq := by
+  unfold commitUsage
+  induction n generalizing use with
+  | zero => simp
+  | succ n ih =>
+    simp only [List.replicate_succ, List.foldl_cons]
+    obtain ⟨i1, i2, i3⟩ := ih (use.add { cpuMap := w0.cpuMap, mem := w0.memReq, numaMem := w0.numaMem })
+    refine ⟨?_, ?_, ?_⟩
+    · rw [i1]; simp [NodeRes.add, h1, mapAdd]
+    · rw [i2]; simp [NodeRes.add, h2, mapAdd]
+    · rw [i3]; simp only [NodeRes.add, Int.natCast_succ, Int.add_mul]; omega
 
 end Eru.CpuMem
